@@ -311,6 +311,15 @@ impl World {
                 return Err(self.violation("C15", "C15.install_effect", n, d, "snapshot_conf_mismatch".into()));
             }
         }
+        // the post-install state equals that of a node that applied the log up to the snapshot index: such a node
+        // tracks progress for exactly the members of that configuration
+        {
+            let members: Vec<u64> = RefConf::from_shape(&cs_shape).members().into_iter().collect();
+            if members != o.prs_keys {
+                let d = format!("node {n}: after accepting the snapshot at {idx} progress is tracked for {:?} but the members of its configuration are {:?}", o.prs_keys, members);
+                return Err(self.violation("C15", "C15.install_effect", n, d, "progress_keys_after_install".into()));
+            }
+        }
         if o.commit < idx {
             let d = format!("node {n}: commit {} is behind the installed snapshot {idx}", o.commit);
             return Err(self.violation("C15", "C15.install_effect", n, d, "commit_behind_snapshot".into()));
